@@ -10,7 +10,8 @@
 #     coverage/SUMMARY.md         per property: functions of its anchored files
 #                                 that no statement of was executed
 # Coverage counters shared by many threads are slow (cache-line ping-pong), so the
-# monitors run with GOMAXPROCS=2 here; run several properties in parallel instead.
+# monitors run with GOMAXPROCS=4 and a tenth of the cases (VERIF_BUDGET_DIV) here; the
+# monitor's own package must be in -coverpkg or no counters are written at exit.
 # This is a diagnostic for extending workloads ("a monitor decides nothing
 # about code the workload never reaches"), not a registered check.
 set -u
@@ -20,19 +21,22 @@ tier=${1:-quick}
 props="$*"
 [ -z "$props" ] && props="C01 C02 C03 C04 C05 C06 C07 C08 C09 C10 C11 C12 C13 C14 C15 C16 C17 C18 C19 C20"
 verif=$(pwd)
+# (a trailing /... pattern does not match the packages of a replaced module: name them)
+M=github.com/unixpickle/model3d
+pkgs=$M/model3d,$M/model2d,$M/render3d,$M/toolbox3d,$M/numerical,$M/fileformats
 mkdir -p coverage
 scratch=$(mktemp -d /var/tmp/vcov-XXXXXX)
 trap 'rm -rf "$scratch"' EXIT
 for p in $props; do
   lp=$(echo $p | tr A-Z a-z)
   bin=$scratch/$lp
-  go build -tags verif -cover -coverpkg=github.com/unixpickle/model3d/... -o $bin ./monitors/$lp || { echo "$p build failed"; continue; }
+  go build -tags verif -cover -coverpkg=verif/monitors/$lp,$pkgs -o $bin ./monitors/$lp || { echo "$p build failed"; continue; }
   d=$scratch/cov-$p
   mkdir -p $d $scratch/rep-$p
-  GOMAXPROCS=${COV_PROCS:-2} GOCOVERDIR=$d $bin -tier $tier -seed ${VERIF_SEED:-1} -evidence $scratch/ev-$p.json -replays $scratch/rep-$p \
+  VERIF_BUDGET_DIV=${COV_DIV:-10} GOMAXPROCS=${COV_PROCS:-4} GOCOVERDIR=$d $bin -tier $tier -seed ${VERIF_SEED:-1} -evidence $scratch/ev-$p.json -replays $scratch/rep-$p \
       -known $verif/known_findings.jsonl -caselog $scratch/cases-$p.log -watchdog-mul 5 > $scratch/out-$p.txt 2>$scratch/err-$p.txt
   echo "$p exit=$? $(grep -c '^VIOLATION' $scratch/out-$p.txt) violation lines"
-  go tool covdata func -i=$d > coverage/$p.func.txt 2>/dev/null
+  go tool covdata func -i=$d 2>/dev/null | grep -v '^verif/' > coverage/$p.func.txt
   rm -rf $d $bin
 done
 [ -n "${COV_NOSUMMARY:-}" ] || { python3 tools/coverage_summary.py $props > coverage/SUMMARY.md; echo "wrote coverage/SUMMARY.md"; }
